@@ -461,6 +461,32 @@ def r14g(ctx, rep, cr):
     rep.floor('R14g', 'name pushes in listing functions', n, 1)
 
 
+def r14h(ctx, rep, cr):
+    rep.rule('R14h', 'a cascading revocation revokes every delegation edge below the revoked one: in DelegationManager::revoke_cascading the '
+                     'loop over children_of(current) calls revoke(current, child) for every child — no iteration moves on without it. The '
+                     'vault deletes access edges only for the records this function returns, so an edge skipped here (a child already '
+                     '"visited" through another parent of the same subtree) leaves that descendant with live access to the second '
+                     'parent\'s secret')
+    f = rep.require_fn('R14h', cr, 'tensor_vault::delegation::DelegationManager::revoke_cascading')
+    if f is None:
+        return
+    rv = [c for c in A.calls_to(f, ('re', r'DelegationManager::revoke$'))]
+    inloop = 0
+    for k, c in enumerate(rv):
+        dom = A.dominators(f)
+        if not any((re.search(r'Iterator>?::next$', x.generic) or re.search(r'Iterator>?::next$', x.resolved)) and x.bb in dom[c.bb] for x in A.calls(f)):
+            continue
+        inloop += 1
+        rep.analysed(f)
+        h = lib.loop_iterations_skipping(f, c)
+        if h is not None:
+            rep.violation('R14h', f, 'child-edge-not-revoked', f.loc(c.line),
+                          'the loop over a node\'s children can go on to the next child without revoking the delegation to the current one')
+        else:
+            rep.holds('R14h', f, 'revoke#%d' % k, 'every child edge is revoked')
+    rep.floor('R14h', 'revoke calls inside the descendant loop', inloop, 1)
+
+
 def run(ctx, rep):
     cr = ctx.crate('tensor_vault')
     cg = ctx.callgraph(['tensor_vault'])
@@ -471,3 +497,4 @@ def run(ctx, rep):
     r14e(ctx, rep, cr)
     r14f(ctx, rep, cr)
     r14g(ctx, rep, cr)
+    r14h(ctx, rep, cr)
